@@ -4,8 +4,14 @@
    block, so the output shows which worker transformed which chunk, in which order).
 
    [SRC_protocol_machine_is_followed_by_PipeConc] is the converse direction of the simulation: every schedule the MACHINE runs (it
-   refuses a step of a thread that is not enabled) is a schedule of PipeConc with the same observation - so the statements below
+   refuses a step of a thread that is not enabled: blocked, asleep, joined on a running worker, finished, out of range, and a spurious
+   wake-up of a thread that is not asleep) is a schedule of PipeConc with the same observation - possibly followed by ONE step of the
+   main thread (thread 0) taken after PipeConc has reached its terminal state: at PipeConc's I_Done the translated op_pipe has not
+   returned yet, the main thread is stopped at the lock of buffergroup::del_instance and takes one more step (lock; delete; unlock;
+   thread exit, event 14), which PipeConc does not model; after it the machine refuses every entry.  So the statements below
    quantify over the executions of the translated code, not over those of the model.
+   [SRC_protocol_machine_is_followed_by_PipeConc_while_main_runs]: the plain statement, for the runs whose main thread has not returned.
+   [SRC_protocol_machine_is_followed_by_PipeConc_refuted_as_first_stated]: the plain statement without that hypothesis is false.
    [SRC_protocol_output_is_schedule_independent]: whenever the translated protocol has run to the end (all worker threads finished)
    under ANY schedule, spurious wake-ups included, its output stream holds exactly the bytes of the sequential reference: chunk j
    transformed block by block by stream j mod T, chunks in load order.
@@ -25,9 +31,29 @@ Theorem SRC_protocol_machine_is_followed_by_PipeConc : forall c T (ispadding : b
   (1 <= c)%nat -> (N.of_nat (16 * c) < 2 ^ 32)%N -> (1 <= T <= 16)%nat -> bytesb input = true ->
   (N.of_nat (length input) < 2 ^ 36)%N ->
   conc_src_run c T ispadding input sched = SOk (cs, log') ->
+  (exists s log, tag_run c T ispadding input sched = Some (s, log) /\ norm_log log' = log /\ thread_done cs 0 = false) \/
+  (exists sched0 s log log0 ne,
+     sched = sched0 ++ [0%nat] /\ tag_run c T ispadding input sched0 = Some (s, log) /\ terminal (N * N) s = true /\
+     log' = log0 ++ [(0%nat, ne, [(14, 0, 0)]%Z)] /\ norm_log log0 = log /\ thread_done cs 0 = true).
+Proof. exact SRC_protocol_machine_runs_characterised_proof. Qed.
+Print Assumptions SRC_protocol_machine_is_followed_by_PipeConc.
+
+Theorem SRC_protocol_machine_is_followed_by_PipeConc_while_main_runs : forall c T (ispadding : bool) input sched cs log',
+  (1 <= c)%nat -> (N.of_nat (16 * c) < 2 ^ 32)%N -> (1 <= T <= 16)%nat -> bytesb input = true ->
+  (N.of_nat (length input) < 2 ^ 36)%N ->
+  conc_src_run c T ispadding input sched = SOk (cs, log') -> thread_done cs 0 = false ->
   exists s log, tag_run c T ispadding input sched = Some (s, log) /\ norm_log log' = log.
 Proof. exact SRC_protocol_machine_is_followed_by_PipeConc_proof. Qed.
-Print Assumptions SRC_protocol_machine_is_followed_by_PipeConc.
+Print Assumptions SRC_protocol_machine_is_followed_by_PipeConc_while_main_runs.
+
+Example SRC_protocol_machine_is_followed_by_PipeConc_refuted_as_first_stated :
+  ~ (forall c T (ispadding : bool) input sched cs log',
+      (1 <= c)%nat -> (N.of_nat (16 * c) < 2 ^ 32)%N -> (1 <= T <= 16)%nat -> bytesb input = true ->
+      (N.of_nat (length input) < 2 ^ 36)%N ->
+      conc_src_run c T ispadding input sched = SOk (cs, log') ->
+      exists s log, tag_run c T ispadding input sched = Some (s, log) /\ norm_log log' = log).
+Proof. exact SRC_protocol_machine_is_followed_by_PipeConc_refuted_as_first_stated_proof. Qed.
+Print Assumptions SRC_protocol_machine_is_followed_by_PipeConc_refuted_as_first_stated.
 
 Theorem SRC_protocol_output_is_schedule_independent : forall c T (ispadding : bool) input sched cs log',
   (1 <= c)%nat -> (N.of_nat (16 * c) < 2 ^ 32)%N -> (1 <= T <= 16)%nat -> bytesb input = true ->
